@@ -113,3 +113,43 @@ void h_add_var (void)
   else V_ASSERT (r >= 0 && r < ORC_N_VARIABLES && p->vars[r].size != 0, "a declaration within the limit returns its variable index");
   V_WITNESS ();
 }
+
+/* every append entry point at the instruction-table limit: accepted below it, refused at it, and a refusal leaves the
+ * bytes behind insns[] (vars[0] lies exactly where insns[100] would) untouched */
+#ifndef API
+#define API 0
+#endif
+void h_append (void)
+{
+  orc_opcode_register_static (ops, "sys");
+  OrcProgram *p = orc_program_new ();
+  orc_program_add_destination (p, 1, "d1");
+  orc_program_add_source (p, 1, "s1");
+  orc_program_add_source (p, 1, "s2");
+  for (int i = 0; i < FILL && i < ORC_N_INSNS; i++) {
+    OrcInstruction *in = &p->insns[i];
+    in->opcode = &ops[0]; in->dest_args[0] = ORC_VAR_D1; in->src_args[0] = ORC_VAR_S1; in->src_args[1] = ORC_VAR_S2;
+  }
+  p->n_insns = FILL;
+  OrcVariable before[1];
+  memcpy (before, p->vars, sizeof before);
+  int n_before = p->n_insns;
+  switch (API) {
+    case 0: orc_program_append (p, "addb", ORC_VAR_D1, ORC_VAR_S1, ORC_VAR_S2); break;
+    case 1: orc_program_append_2 (p, "addb", 0, ORC_VAR_D1, ORC_VAR_S1, ORC_VAR_S2, ORC_VAR_D1); break;
+    case 2: orc_program_append_ds (p, "copyb", ORC_VAR_D1, ORC_VAR_S1); break;
+    case 3: orc_program_append_str (p, "addb", "d1", "s1", "s2"); break;
+    case 4: orc_program_append_str_2 (p, "addb", 0, "d1", "s1", "s2", "d1"); break;
+    case 5: orc_program_append_ds_str (p, "copyb", "d1", "s1"); break;
+    case 6: { const char *a[3] = { "d1", "s1", "s2" }; orc_program_append_str_n (p, "addb", 0, 3, a); break; }
+  }
+  V_ASSERT (p->n_insns <= ORC_N_INSNS, "instruction count never exceeds the table");
+  if (FILL >= ORC_N_INSNS) {
+    V_ASSERT (p->n_insns == n_before, "an append to a full table is refused");
+    V_ASSERT (p->error_msg != 0, "the refusal is recorded as the program error");
+  } else {
+    V_ASSERT (p->n_insns == n_before + 1 && p->insns[n_before].opcode != 0, "an append below the limit is stored");
+  }
+  V_ASSERT (memcmp (before, p->vars, sizeof before) == 0, "appending never writes behind the instruction table (vars[] unchanged)");
+  V_WITNESS ();
+}
